@@ -1,6 +1,7 @@
 import MM.Props.Exhaustive
 import MM.Props.Greedy
 import MM.Props.C01Admit
+import MM.Props.C01Ids
 #print axioms MM.Search.evaluated_sub_listing
 #print axioms MM.Search.C01_exhaustive_evaluated
 #print axioms MM.Search.C01_exhaustive
@@ -13,3 +14,6 @@ import MM.Props.C01Admit
 #print axioms MM.Admit.admit_cap
 #print axioms MM.Admit.admit_classes
 #print axioms MM.Admit.ids_injective
+#print axioms MM.Admit.C01_ids
+#print axioms MM.Admit.C01_ids_exhaustive
+#print axioms MM.Admit.C01_ids_greedy
